@@ -21,6 +21,8 @@ import (
 // package-level object as before.
 
 type c10Move struct {
+	Program  *program `json:"generated_program,omitempty"` // a generated program is its own replay
+	SrcPkg   string   `json:"src_pkg,omitempty"`
 	Prog     int    `json:"program"`
 	FromFile int    `json:"from_file"` // file of the last package
 	Decl     string `json:"decl"`      // name of the declaration to move
@@ -125,7 +127,12 @@ func denotations(info *types.Info, d ast.Decl, self *types.Package, crossPackage
 }
 
 func c10Check(mv c10Move) (key, what string) {
-	prog := c10Programs[mv.Prog]
+	var prog program
+	if mv.Program != nil {
+		prog = *mv.Program
+	} else {
+		prog = c10Programs[mv.Prog]
+	}
 	c := typeCheck(prog)
 	if c.err != nil {
 		return "c10-program", "the program does not type-check: " + c.err.Error()
@@ -136,8 +143,13 @@ func c10Check(mv c10Move) (key, what string) {
 		names[stripVendorRef(p)] = tp.Name()
 	}
 	srcPkg := prog.Pkgs[len(prog.Pkgs)-1]
-	if mv.Prog == 1 || mv.Prog == 2 {
+	if mv.Program == nil && (mv.Prog == 1 || mv.Prog == 2) {
 		srcPkg = prog.Pkgs[2]
+	}
+	for _, pk := range prog.Pkgs {
+		if mv.SrcPkg != "" && pk.Path == mv.SrcPkg {
+			srcPkg = pk
+		}
 	}
 	tgtPkgPath := srcPkg.Path
 	if mv.ToPkg != "" {
@@ -292,8 +304,124 @@ func c10Prop(c *Ctx) {
 	}
 }
 
+// usesLocalObjects: the declaration refers to package-level objects of its own package (such a
+// declaration stays in its package: the decorator leaves local paths empty by default)
+func usesLocalObjects(info *types.Info, d ast.Decl, self *types.Package) bool {
+	found := false
+	ast.Inspect(d, func(n ast.Node) bool {
+		if id, ok := n.(*ast.Ident); ok {
+			if obj := info.Uses[id]; obj != nil && obj.Pkg() == self && obj.Parent() == self.Scope() {
+				found = true
+			}
+		}
+		return true
+	})
+	return found
+}
+
+// referencedElsewhere: a package-level object the declaration defines is used outside of it
+func referencedElsewhere(info *types.Info, files []*ast.File, d ast.Decl, self *types.Package) bool {
+	defs := map[types.Object]bool{}
+	ast.Inspect(d, func(n ast.Node) bool {
+		if id, ok := n.(*ast.Ident); ok {
+			if obj := info.Defs[id]; obj != nil && obj.Parent() == self.Scope() {
+				defs[obj] = true
+			}
+		}
+		return true
+	})
+	found := false
+	for _, f := range files {
+		ast.Inspect(f, func(n ast.Node) bool {
+			if n == ast.Node(d) {
+				return false
+			}
+			if id, ok := n.(*ast.Ident); ok && defs[info.Uses[id]] {
+				found = true
+			}
+			return true
+		})
+	}
+	return found
+}
+
+// generated programs (c09_gen.go) with an extra package that imports nothing: every declaration of
+// the package under test is moved into every other file of its package (which may import the
+// packages it needs under another name, an alias that is the name of another package, through a
+// dot-import, blank, or not at all), and, when it refers to no local object, into the empty package
+func c10Generated(c *Ctx) {
+	for gi := 0; gi < c.N(10); gi++ {
+		g := genProgram(c.Rng)
+		local := g.Prog.Pkgs[len(g.Prog.Pkgs)-1]
+		empty := progPkg{Path: "zz/empty", Files: []string{"package empty\n\nvar Nothing = 0\n"}}
+		prog := program{Pkgs: append(append([]progPkg{}, g.Prog.Pkgs...), empty)}
+		chk := typeCheck(prog)
+		if chk.err != nil {
+			c.Res.fail("c10-program", "the generated program does not type-check: "+chk.err.Error(), map[string]interface{}{"prog": prog})
+			continue
+		}
+		for fi, af := range chk.files[local.Path] {
+			var names []string
+			for _, d := range af.Decls {
+				if gd, ok := d.(*ast.GenDecl); ok && gd.Tok.String() == "import" {
+					continue
+				}
+				var nm string
+				switch d := d.(type) {
+				case *ast.FuncDecl:
+					if d.Recv != nil || d.Name.Name == "main" {
+						continue
+					}
+					nm = d.Name.Name
+				case *ast.GenDecl:
+					switch s := d.Specs[0].(type) {
+					case *ast.ValueSpec:
+						nm = s.Names[0].Name
+					case *ast.TypeSpec:
+						nm = s.Name.Name
+					}
+				}
+				if nm != "" {
+					names = append(names, nm)
+				}
+			}
+			// a sample of the declarations of the file
+			c.Rng.Shuffle(len(names), func(i, j int) { names[i], names[j] = names[j], names[i] })
+			if len(names) > 4 {
+				names = names[:4]
+			}
+			for _, nm := range names {
+				ad := astDeclByName(af, nm)
+				for tf := range local.Files {
+					if tf == fi {
+						continue
+					}
+					pp := prog
+					mv := c10Move{Program: &pp, SrcPkg: local.Path, FromFile: fi, Decl: nm, ToFile: tf, Twice: c.Rng.Intn(4) == 0}
+					c.Res.Evaluations++
+					c.Res.seen(fmt.Sprint(gi, fi, nm, tf))
+					c.Res.hist("c10", fmt.Sprintf("generated same-package twice=%v", mv.Twice))
+					if key, what := c10Check(mv); key != "" {
+						c.Res.fail(key, what, mv)
+					}
+				}
+				if !usesLocalObjects(chk.info[local.Path], ad, chk.pkgs[local.Path]) && !referencedElsewhere(chk.info[local.Path], chk.files[local.Path], ad, chk.pkgs[local.Path]) {
+					pp := prog
+					mv := c10Move{Program: &pp, SrcPkg: local.Path, FromFile: fi, Decl: nm, ToPkg: "zz/empty", ToFile: 0}
+					c.Res.Evaluations++
+					c.Res.seen(fmt.Sprint(gi, fi, nm, "x"))
+					c.Res.hist("c10", "generated cross-package")
+					if key, what := c10Check(mv); key != "" {
+						c.Res.fail(key, what, mv)
+					}
+				}
+			}
+		}
+	}
+}
+
 func init() {
-	props["C10"] = c10Prop
+	props["C10"] = func(c *Ctx) { c10Prop(c); c10Generated(c) }
 	corrs["C10"] = importsCorr
 	replays["C10"] = func(c *Ctx, raw json.RawMessage) (bool, string) {
 		var mv c10Move
